@@ -598,7 +598,7 @@ def _r19_2(c, R, spec):
 # ------------------------------------------------------------------------------------ R19.3
 def r19_3(c, R, spec):
     _r19_3(c, R, spec)
-    R.floor("R19.3", 12)
+    R.floor("R19.3", 13)
 
 
 def _r19_3(c, R, spec):
@@ -798,16 +798,21 @@ def _r19_3(c, R, spec):
             return {("org.gp", "gp", "1"): gp, (p_group or "org.gp", "p", "2"): p, ("org.c", "c", "3"): ch}
         bad = []
         alive = True
+        repos = Lst([sym("repository#1"), sym("repository#2")])
+        narrowed = []
         for label, p_group in (("parent inherits its groupId from the grandparent", None), ("all coordinates explicit", "org.p")):
             uni = universe(p_group)
 
             def h_fetch(ip, args, n, uni=uni):
                 co = [a for a in args if isinstance(a, St) and a.adt == COORD]
                 k = (py(co[0].f["group"]), py(co[0].f["artifact"]), py(co[0].f["version"])) if len(co) == 1 else None
+                ls = [a for a in args if isinstance(a, Lst)]
+                if not (len(ls) == 1 and [U.key(x) for x in ls[0].items] == [U.key(x) for x in repos.items]):
+                    narrowed.append({"pom": k, "repositories asked": [py(x) for x in ls[0].items] if len(ls) == 1 else "?"})
                 if k in uni:
-                    return OK(T_(sym("resolver"), U.deep(uni[k])))
+                    return OK(T_(sym("repository#2"), U.deep(uni[k])))
                 return ERR(sym("no such pom %r" % (k,)))
-            args = _args_by_type(merged, [(lambda t: "coord::MavenCoord" in t, coord("org.c", "c", "3"))])
+            args = _args_by_type(merged, [(lambda t: "coord::MavenCoord" in t, coord("org.c", "c", "3")), (lambda t: "[%s" % RESOLVER in t, repos)])
             r = E.run(merged, args, hooks={fetch["key"]: h_fetch})
             if r is None:
                 alive = False
@@ -830,6 +835,9 @@ def _r19_3(c, R, spec):
                    expect="effective POM of the child: management = own, parent's, grandparent's; an unversioned dependency takes the "
                           "nearest ancestor's managed version; inherited dependencies after own ones",
                    detail="the ancestor chain is collected child->root and must be merged root->child")
+            R.inst("R19.3", "every-pom-from-all-repositories", not narrowed, sp=merged["sp"], got=narrowed[:3] or None,
+                   expect="the POM itself and each ancestor are looked up in the whole repository list, in its order",
+                   detail="a parent may be served by another repository than its child (seed C19-8)")
 
 # ------------------------------------------------------------------------------------ R19.4
 def r19_4(c, R, spec):
